@@ -27,6 +27,7 @@
 #include <stdlib.h>
 #include <stdint.h>
 #include <stdbool.h>
+#include <limits.h>
 #include <zck.h>
 #include "zck_private.h"
 
@@ -48,38 +49,38 @@ int compint_to_size(zckCtx *zck, size_t *val, const char *compint,
     VALIDATE_BOOL(zck);
 
     *val = 0;
-    size_t old_val = 0;
-    const unsigned char *i = (unsigned char *)compint;
-    int count = 0;
-    bool done = false;
-    while(true) {
-        size_t c = i[0];
-        if(c >= 128) {
-            c -= 128;
-            done = true;
-        }
-        /* There *must* be a more elegant way of doing c * 128**count */
-        for(int f=0; f<count; f++)
-            c *= 128;
-        *val += c;
-        (*length) = (*length) + 1;
-        count++;
-        if(done)
-            break;
-        i++;
-        /* Make sure we're not overflowing and fail if we do */
-        if(count >= MAX_COMP_SIZE || count >= max_length || *val < old_val) {
-            if(count > max_length)
-                set_fatal_error(zck, "Read past end of header");
-            else
-                set_fatal_error(zck, "Number too large");
+    const unsigned char *i = (const unsigned char *)compint;
+    for(int count = 0; count < MAX_COMP_SIZE; count++) {
+        /* Never read beyond the end of the buffer we were given */
+        if(*length >= max_length) {
+            set_fatal_error(zck, "Read past end of header");
             *length -= count;
             *val = 0;
             return false;
         }
-        old_val = *val;
+        size_t c = i[count];
+        bool done = false;
+        if(c >= 128) {
+            c -= 128;
+            done = true;
+        }
+        /* Fail if the value doesn't fit into a size_t */
+        if(c > (SIZE_MAX >> (7 * count))) {
+            set_fatal_error(zck, "Number too large");
+            *length -= count;
+            *val = 0;
+            return false;
+        }
+        *val += c << (7 * count);
+        (*length) = (*length) + 1;
+        if(done)
+            return true;
     }
-    return true;
+    /* No terminating byte within the maximum length of a compressed int */
+    set_fatal_error(zck, "Number too large");
+    *length -= MAX_COMP_SIZE;
+    *val = 0;
+    return false;
 }
 
 int compint_from_int(zckCtx *zck, char *compint, int val, size_t *length) {
@@ -98,13 +99,13 @@ int compint_to_int(zckCtx *zck, int *val, const char *compint, size_t *length,
                    size_t max_length) {
     VALIDATE_BOOL(zck);
 
-    size_t new = (size_t)*val;
+    size_t new = 0;
     if(!compint_to_size(zck, &new, compint, length, max_length))
         return false;
-    *val = (int)new;
-    if(*val < 0) {
-        set_fatal_error(zck, "Overflow error: compressed int is negative");
+    if(new > INT_MAX) {
+        set_fatal_error(zck, "Overflow error: compressed int doesn't fit in an int");
         return false;
     }
+    *val = (int)new;
     return true;
 }
